@@ -44,6 +44,7 @@ type countingSource struct {
 	outOrder atomic.Int64 // set to 1 when a call arrives after the end marker was returned
 	inCall   atomic.Int32
 	reentry  atomic.Int64
+	onCall   func(pos int) // controlled-scheduler builds: a scheduling point inside the digit source
 }
 
 func (c *countingSource) next() int {
@@ -52,6 +53,9 @@ func (c *countingSource) next() int {
 	}
 	defer c.inCall.Add(-1)
 	c.calls.Add(1)
+	if c.onCall != nil {
+		c.onCall(c.pos)
+	}
 	if c.ended {
 		c.outOrder.Store(1)
 		if c.ill {
